@@ -445,3 +445,94 @@ Theorem C14_source_side_boxes_do_not_overlap O (HO : Py.ops_ok O) (HR : GV.resto
     (fun _ => False).
 Proof. exact (GVS.source_side_boxes_do_not_overlap O HO HR n avail a b c ga gb gc). Qed.
 Print Assumptions C14_source_side_boxes_do_not_overlap.
+
+(* ====================================== 6. StyleFor._page_type_match as REGENERATED from weasyprint/css/__init__.py *)
+(* gen/GenPageSel.v on every run: the whole function.  The selector and the page type are the attribute bags GM.vsel /
+   GM.vpt (namedtuples PageSelectorType / PageType: side 'left' / 'right', booleans, integers n#1, None, the :nth
+   triple [a; b; group or None], the page groups a list of [name; index]); `offset % a` is the primitive PMod of
+   base/Py.v (floor-mod), `offset / a` the exact quotient; `for group_name, index in page_type.groups` with its
+   `continue` is printed as a loop over one variable with an unpacking and an if / else. *)
+Require WV.gen.GenPageSel WV.proofs.C14_gen_match.
+Module GM := WV.proofs.C14_gen_match.
+
+(* the source computes the hand model page_type_match (on which C14_page_type_match and the cascade theorems of
+   section 1 rest) for every selector and every page type, whatever the list of page groups, and raises nothing *)
+Theorem C14_source_page_type_match O (HO : Py.ops_ok O) (sel : selector) (pt : page_type) :
+  Py.run O GenPageSel.page_type_match_body (GM.env0 (GM.vsel sel) (GM.vpt pt))
+    (fun _ r => r = Some (Py.VBool (page_type_match sel pt))) (fun _ => False).
+Proof. exact (GM.gen_page_type_match O HO sel pt). Qed.
+Print Assumptions C14_source_page_type_match.
+
+(* the same as the value a caller receives *)
+Theorem C14_source_page_type_match_call O (HO : Py.ops_ok O) (sel : selector) (pt : page_type) :
+  PyLink.call_body O (GenPageSel.page_type_match_args, GenPageSel.page_type_match_body) [GM.vsel sel; GM.vpt pt]
+  = Py.VBool (page_type_match sel pt).
+Proof. exact (GM.call_page_type_match O HO sel pt). Qed.
+Print Assumptions C14_source_page_type_match_call.
+
+(* the source answers True exactly when the selector's meaning holds of the page: side, :blank, :first (index 0),
+   page name, :nth(an+b) (the page number index+1 is a*n+b for some n >= 0), :nth(an+b of g) (the page is named g
+   and one of its group entries (g, gi) has gi+1 = a*n+b for some n >= 0) *)
+Theorem C14_source_page_type_match_spec O (HO : Py.ops_ok O) (sel : selector) (pt : page_type) :
+  Py.run O GenPageSel.page_type_match_body (GM.env0 (GM.vsel sel) (GM.vpt pt))
+    (fun _ r => exists m : bool, r = Some (Py.VBool m) /\
+       (m = true <->
+        ((forall s, s_side sel = Some s -> s = pt_side pt) /\
+         (forall bl, s_blank sel = Some bl -> bl = pt_blank pt) /\
+         (forall f, s_first sel = Some f -> (f = true <-> pt_index pt = 0%Z)) /\
+         (forall n, s_name sel = Some n -> n = pt_name pt) /\
+         (forall a b, s_index sel = Some (a, b, None) -> nth_spec a b (pt_index pt)) /\
+         (forall a b g, s_index sel = Some (a, b, Some g) ->
+            g = pt_name pt /\ exists gi, In (g, gi) (pt_groups pt) /\ nth_spec a b gi))))
+    (fun _ => False).
+Proof. exact (GM.source_page_type_match_spec O HO sel pt). Qed.
+Print Assumptions C14_source_page_type_match_spec.
+
+(* `offset == 0 if a == 0 else (offset / a >= 0 and not offset % a)` of the source, for ALL integers a, b and every
+   page index: `@page :nth(an+b)` matches iff index + 1 = a*n + b for some n >= 0 *)
+Theorem C14_source_nth_semantics O (HO : Py.ops_ok O) (a b : Z) (pt : page_type) :
+  Py.run O GenPageSel.page_type_match_body (GM.env0 (GM.vsel (GM.sel_nth a b)) (GM.vpt pt))
+    (fun _ r => exists m : bool, r = Some (Py.VBool m) /\
+                (m = true <-> exists n : Z, (0 <= n /\ pt_index pt + 1 = a * n + b)%Z))
+    (fun _ => False).
+Proof. exact (GM.source_nth_semantics O HO a b pt). Qed.
+Print Assumptions C14_source_nth_semantics.
+
+(* ============================ 7. _standardize_page_based_counters as REGENERATED from weasyprint/layout/page.py *)
+(* gen/GenPageCounters.v on every run: the whole function, the loop over the three property names unrolled by the
+   translator (constant keys), `continue` folded into if / else, the loop over the (name, value) pairs over one
+   variable with an unpacking.  The style dictionary is the attribute bag GC.sty (the three counter properties, each
+   'auto' or a list of pairs: GC.vops, then any other entries `extra`), pseudo_type None for the page itself or the
+   at-keyword of a margin box (GC.vpseudo). *)
+Require WV.gen.GenPageCounters WV.proofs.C14_gen_counters.
+Module GC := WV.proofs.C14_gen_counters.
+
+(* the dictionary the source leaves is the hand model standardize (on which C14_page_counter_counts_from_1,
+   C14_counter_reset_on_page_rule, C14_counter_increment_on_page_rule, C14_margin_box_keeps_page_counter rest), for
+   every style and both contexts; nothing is raised, nothing is returned *)
+Theorem C14_source_standardize_counters O (c : cstyle) (is_page : bool) (kw : string) (extra : list (string * Py.val)) :
+  Py.run O GenPageCounters.standardize_page_based_counters_body
+    [("style"%string, GC.sty (GC.vops (c_set c)) (GC.vops (c_reset c)) (GC.vops (c_incr c)) extra);
+     ("pseudo_type"%string, GC.vpseudo is_page kw)]
+    (fun rho r => r = None /\ Py.lookup "style" rho = GC.vstd (standardize c is_page) extra) (fun _ => False).
+Proof. exact (GC.gen_standardize O c is_page kw extra). Qed.
+Print Assumptions C14_source_standardize_counters.
+
+(* in the terms of the property: the source drops exactly the entries named `pages` from the three properties
+   ('auto' becomes empty), keeps the others in order, and puts `page 1` in front of counter-increment exactly in the
+   page context when no entry of the three properties names `page` *)
+Theorem C14_source_standardize_counters_spec O (c : cstyle) (is_page : bool) (kw : string) extra :
+  Py.run O GenPageCounters.standardize_page_based_counters_body
+    [("style"%string, GC.sty (GC.vops (c_set c)) (GC.vops (c_reset c)) (GC.vops (c_incr c)) extra);
+     ("pseudo_type"%string, GC.vpseudo is_page kw)]
+    (fun rho r => r = None /\ exists s' r' i' : ops,
+       Py.lookup "style" rho =
+         GC.sty (Py.VList (map GC.vpair s')) (Py.VList (map GC.vpair r')) (Py.VList (map GC.vpair i')) extra /\
+       s' = filter GC.keep (GC.oplist (c_set c)) /\ r' = filter GC.keep (GC.oplist (c_reset c)) /\
+       (forall nv, In nv s' <-> In nv (GC.oplist (c_set c)) /\ fst nv <> "pages"%string) /\
+       (forall nv, In nv r' <-> In nv (GC.oplist (c_reset c)) /\ fst nv <> "pages"%string) /\
+       ((is_page = true /\ ~ GC.names_page c) -> i' = ("page"%string, 1%Z) :: filter GC.keep (GC.oplist (c_incr c))) /\
+       ((is_page = false \/ GC.names_page c) -> i' = filter GC.keep (GC.oplist (c_incr c))))
+    (fun _ => False).
+Proof. exact (GC.source_standardize_spec O c is_page kw extra). Qed.
+Print Assumptions C14_source_standardize_counters_spec.
